@@ -3,28 +3,43 @@
 proof:  lean/AdeptProofs/Props/C15.lean over AdeptModel/{Blas,Matmul}.lean: for all extents >= 1 and ALL strides,
         matmul(A,B)[i,j] = sum_k A[i,k]*B[k,j] on the gemv and gemm paths (row-contiguous, column-contiguous, copied
         operands in every combination), symv/symm/gbmv paths, every index BLAS reads is an element address of the
-        operand, empty_array before inner_dimension_mismatch, pushed derivative statements.
+        operand, empty_array before inner_dimension_mismatch; the derivative clause: the recording loops transcribed
+        literally (gemvRecord / gemmRecord / bandVRecord: closed forms C15_tape_*), the statement of (i,j) denotes the
+        differential of the defining sum (C15_stmt_differential_*, C15_defining_sum_differential), and the tangent-linear
+        sweep over EVERYTHING a product records (copies of doubly strided operands, promote_array's conversions) yields
+        that differential in terms of the operands' own gradient cells (C15_active_derivative_*, C15_conversion_statements).
 tie:    hand-written model <-> include/adept/matmul.h + adept/cppblas.cpp; the harness links a spy BLAS
         (harness/spy_blas.cpp, reference loops that log every argument and every index touched) under ASan/UBSan;
         the logged Fortran arguments (routine, flags after the row-major rewriting, m n k, lda ldb ldc, increments,
         pointer offsets into the operands), the touched index ranges and the result elements are compared exactly
-        with the model's on every case; operand views as built through the public API are compared too.
+        with the model's on every case; operand views as built through the public API are compared too.  For every
+        ACTIVE product the driver dumps the raw tape (conversion, copy and result statements: lhs index, every operand
+        index, every multiplier; gradient indices symbolic: L+cell / R+cell / T+k-th index allocated inside matmul /
+        C+result cell) and it is compared EXACTLY with the statements of the model.  Element types double and float
+        (s-prefix BLAS entry points).
 oracle: the definition sum_k A[i,k]*B[k,j] in Python integers from the operands' logical elements as the harness reads
         them through operator(); expected exception class from the extents alone; Jacobian rows = derivative of the
-        defining sum w.r.t. every storage cell of the active operands; "no read outside the operand" from the spy's log.
+        defining sum w.r.t. every storage cell of the active operands (three elements through Stack::jacobian, EVERY
+        element through a forward sweep over the dumped tape in Python); "no read outside the operand" from the spy's
+        log; s-prefix routines for float operands, d-prefix for double.
 """
 import os, json, re
 import vbuild, vcheck
 
 LEVEL = "proof"
 NS = "Adept.Matmul."
-REQUIRED = ["C15_gemm_path", "C15_gemv_path", "C15_vecmat_path", "C15_gemm_reads_within", "C15_gemv_reads_within",
+REQUIRED = ["C15_tape_mm", "C15_tape_mv", "C15_tape_band", "C15_defining_sum_differential", "C15_stmt_differential_mm",
+            "C15_stmt_differential_band", "C15_active_derivative_mm", "C15_active_derivative_mv", "C15_active_derivative_vm",
+            "C15_active_derivative_band", "C15_operand_gradients_outside", "C15_conversion_statements",
+            "C15_active_derivative_promoted_mm",
+            "C15_gemm_path", "C15_gemv_path", "C15_vecmat_path", "C15_gemm_reads_within", "C15_gemv_reads_within",
             "C15_prepared_operand", "C15_errors_mm", "C15_errors_mv", "C15_errors_special",
             "C15_symv_path", "C15_vecsym_path", "C15_symm_path", "C15_matsym_path", "C15_sym_reads_within",
             "C15_gbmv_path", "C15_vecband_path", "C15_bandmat_path", "C15_matband_path", "C15_gbmv_reads_within",
             "C15_active_product_mm", "C15_active_product_mv"]
 H = os.path.join(vbuild.VERIF, "harness")
-SRCS = ["drv_matmul.cpp", "drv_matmul_f1.cpp", "drv_matmul_f2.cpp"] + ["drv_matmul_s%d.cpp" % i for i in range(1, 7)]
+SRCS = (["drv_matmul.cpp", "drv_matmul_f1.cpp", "drv_matmul_f2.cpp"] + ["drv_matmul_s%d.cpp" % i for i in range(1, 7)]
+        + ["drv_matmul_flt%d.cpp" % i for i in range(1, 5)])
 EXTENTS = [1, 2, 3, 5, 8]
 
 
@@ -61,6 +76,8 @@ class G:
 
     # dense matrix kinds: logical extents r x c
     def M(self, kind, act, r, c):
+        if kind.startswith("x2:") or kind.startswith("xs:"):      # expression operand 2.0*view / view+view over any layout
+            return self.M(kind[3:], act, r, c).replace(" : ", " %s : " % kind[:2], 1)
         a = "a" if act else "p"
         pw = self.pw
         if kind == "rm":
@@ -99,13 +116,11 @@ class G:
             return self.spec("M %s c %d %d c:%d:0:-1" % (a, r, c, c - 1), r * c)
         if kind == "padcols":  # first columns of a wider matrix: padded rows
             return self.spec("M %s r %d %d c:0:%d:1" % (a, r, c + 1, c - 1), cells_rm(pw, r, c + 1))
-        if kind == "x2":       # expression operand
-            return self.spec("M %s r %d %d x2" % (a, r, c), cells_rm(pw, r, c))
-        if kind == "x2T":
-            return self.spec("M %s r %d %d T x2" % (a, c, r), cells_rm(pw, c, r))
         raise KeyError(kind)
 
     def V(self, kind, act, n):
+        if kind.startswith("x2:") or kind.startswith("xs:"):
+            return self.V(kind[3:], act, n).replace(" : ", " %s : " % kind[:2], 1)
         a = "a" if act else "p"
         if kind == "v":
             return self.spec("V %s %d" % (a, n), n)
@@ -119,8 +134,6 @@ class G:
             return self.spec("V %s %d s:2:%d:1" % (a, n + 3, n + 1), n + 3)
         if kind == "vsubrev":  # reversed part of a longer vector (the witness of F-13)
             return self.spec("V %s %d s:2:%d:1 s:%d:0:-1" % (a, n + 4, n + 1, n - 1), n + 4)
-        if kind == "vx2":
-            return self.spec("V %s %d x2" % (a, n), n)
         raise KeyError(kind)
 
     def S(self, tag, act, n, variant=""):
@@ -138,7 +151,7 @@ class G:
             return self.spec("S %s %s %d d:1:%d" % (a, tag, n + 2, n), size(n + 2))
         if variant == "subsub":
             return self.spec("S %s %s %d d:1:%d d:1:%d" % (a, tag, n + 3, n + 2, n), size(n + 3))
-        if variant in ("T", "x2"):
+        if variant in ("T", "x2"):   # .T() of the matrix / the expression 2.0*S
             return self.spec("S %s %s %d %s" % (a, tag, n, variant), size(n))
         if variant == "subT":
             return self.spec("S %s %s %d d:2:%d T" % (a, tag, n + 2, n + 1), size(n + 2))
@@ -150,31 +163,58 @@ DENSE_M = ["rm", "cm", "rmT", "cmT", "rowstr", "colstr", "dblstr", "revrows", "r
 DENSE_V = ["v", "vstr", "vrev", "vrevstr", "vsub", "vsubrev"]
 BANDS = {"b00": (0, 0), "b11": (1, 1), "b22": (2, 2), "b20": (2, 0), "b02": (0, 2), "b12": (1, 2),
          "cb00": (0, 0), "cb11": (1, 1), "cb22": (2, 2), "cb20": (2, 0), "cb02": (0, 2), "cb12": (1, 2)}
-# (tag, variants allowed for the passive type, active variant exists) -- mirrors drv_matmul_s*.cpp
-SPECIALS = [("sq", ["", "sub", "T", "x2"], True), ("sqc", ["", "sub"], False),
-            ("symL", ["", "sub", "subsub", "T", "x2"], True), ("symU", ["", "sub", "T"], True),
-            ("lo", ["", "sub", "T"], True), ("loc", ["", "sub"], False), ("up", ["", "sub"], True), ("upc", ["", "sub"], False),
-            ("b00", ["", "sub"], False), ("b11", ["", "sub", "x2"], True), ("b22", ["", "sub"], False),
-            ("b20", ["", "sub", "subsub"], False), ("b02", ["", "sub"], False), ("b12", ["", "sub", "T", "subT"], True),
-            ("cb00", ["", "sub"], False), ("cb11", ["", "sub"], False), ("cb22", ["", "sub"], False),
-            ("cb20", ["", "sub"], False), ("cb02", ["", "sub"], False), ("cb12", ["", "sub", "T"], False)]
+# (tag, variants instantiated for the passive type, variants instantiated for the active type) -- mirrors drv_matmul_s*.cpp
+SPECIALS = [("sq", ["", "sub", "T", "x2"], ["", "sub", "T", "x2"]), ("sqc", ["", "sub"], ["", "sub"]),
+            ("symL", ["", "sub", "subsub", "T", "x2"], ["", "sub"]), ("symU", ["", "sub", "T"], ["", "sub"]),
+            ("lo", ["", "sub", "T"], ["", "sub", "T"]), ("loc", ["", "sub"], ["", "sub"]),
+            ("up", ["", "sub"], ["", "sub"]), ("upc", ["", "sub"], ["", "sub"]),
+            ("b00", ["", "sub"], []), ("b11", ["", "sub", "x2"], ["", "sub"]), ("b22", ["", "sub"], []),
+            ("b20", ["", "sub", "subsub"], []), ("b02", ["", "sub"], []), ("b12", ["", "sub", "T", "subT"], ["", "sub"]),
+            ("cb00", ["", "sub"], []), ("cb11", ["", "sub"], []), ("cb22", ["", "sub"], []),
+            ("cb20", ["", "sub"], []), ("cb02", ["", "sub"], []), ("cb12", ["", "sub", "T"], [])]
+SPECIAL_FAMILY = {"sq": "square", "sqc": "square", "symL": "symmetric", "symU": "symmetric", "lo": "lower-triangular",
+                  "loc": "lower-triangular", "up": "upper-triangular", "upc": "upper-triangular"}
 FIXED_M = [(1, 1), (2, 3), (3, 2), (3, 3), (5, 8), (8, 5), (1, 3), (3, 1)]
 FIXED_V = [1, 2, 3, 5, 8]
 
 
-def x_kinds():
-    """operand kinds that need a plain dense partner: (name, rank, builder(g, act, rows, cols) or fixed size)"""
-    out = [("x2", "M", None), ("x2T", "M", None), ("vx2", "V", None)]
-    for tag, variants, has_act in SPECIALS:
-        for v in variants:
-            out.append(("S:%s:%s:p" % (tag, v), "S", (tag, v, False)))
-        if has_act:
-            out.append(("S:%s::a" % tag, "S", (tag, "", True)))
-            out.append(("S:%s:sub:a" % tag, "S", (tag, "sub", True)))
+# element type float (Pf / Qf lines): what drv_matmul_flt*.cpp instantiates
+SPECIALS_F = [("sq", [""], ["", "sub"]), ("symL", ["", "sub", "T"], []), ("symU", ["", "sub"], []), ("lo", ["", "sub"], []),
+              ("upc", ["", "sub"], []), ("b11", ["", "sub"], ["", "sub"]), ("b12", ["", "sub", "T", "subT"], []),
+              ("b20", ["", "sub", "subsub"], []), ("cb12", ["", "sub"], []), ("cb02", ["", "sub"], [])]
+FIXED_M_F = [(2, 3), (3, 3), (5, 8)]
+FIXED_V_F = [3, 8]
+
+
+def x_kinds(flt=False):
+    """operand kinds that need a plain dense partner: (name, category, info, family for the evidence)"""
+    if flt:
+        out = []
+        for wrap, fam in (("x2", "float: expression 2*A"), ("xs", "float: expression A+A")):
+            out += [("%s:%s" % (wrap, k), "M", None, fam) for k in DENSE_M] + [("%s:%s" % (wrap, k), "V", None, fam) for k in DENSE_V]
+        for tag, pvars, avars in SPECIALS_F:
+            fam = "float: " + SPECIAL_FAMILY.get(tag, "band")
+            out += [("S:%s:%s:p" % (tag, v), "S", (tag, v, False), fam) for v in pvars]
+            out += [("S:%s:%s:a" % (tag, v), "S", (tag, v, True), fam) for v in avars]
+        out += [("FM%dx%d" % rc, "FM", rc, "float: FixedArray matrix") for rc in FIXED_M_F]
+        out += [("FV%d" % n, "FV", n, "float: FixedArray vector") for n in FIXED_V_F]
+        return out
+    out = []
+    for wrap, fam in (("x2", "expression 2.0*A"), ("xs", "expression A+A")):
+        for k in DENSE_M:
+            out.append(("%s:%s" % (wrap, k), "M", None, fam))
+        for k in DENSE_V:
+            out.append(("%s:%s" % (wrap, k), "V", None, fam))
+    for tag, pvars, avars in SPECIALS:
+        fam = SPECIAL_FAMILY.get(tag, "band")
+        for v in pvars:
+            out.append(("S:%s:%s:p" % (tag, v), "S", (tag, v, False), fam))
+        for v in avars:
+            out.append(("S:%s:%s:a" % (tag, v), "S", (tag, v, True), fam))
     for rc in FIXED_M:
-        out.append(("FM%dx%d" % rc, "FM", rc))
+        out.append(("FM%dx%d" % rc, "FM", rc, "FixedArray matrix"))
     for n in FIXED_V:
-        out.append(("FV%d" % n, "FV", n))
+        out.append(("FV%d" % n, "FV", n, "FixedArray vector"))
     return out
 
 
@@ -193,7 +233,7 @@ def ext_class(rng, cls):
     return tuple(rng.choice(EXTENTS) for _ in range(3))
 
 
-def case_dense(g, form, lk, rk, la, ra, ext, use_op):
+def case_dense(g, form, lk, rk, la, ra, ext, use_op, sfx=""):
     m, k, n = ext
     if form == "MM":
         l, r = g.M(lk, la, m, k), g.M(rk, ra, k, n)
@@ -201,12 +241,12 @@ def case_dense(g, form, lk, rk, la, ra, ext, use_op):
         l, r = g.M(lk, la, m, k), g.V(rk, ra, k)
     else:
         l, r = g.V(lk, la, k), g.M(rk, ra, k, n)
-    return "%s %s | %s" % ("P" if use_op else "Q", l, r)
+    return "%s%s %s | %s" % ("P" if use_op else "Q", sfx, l, r)
 
 
-def case_x(g, xk, side, partner_kind, partner_rank, pa, ext, use_op, xact=None):
+def case_x(g, xk, side, partner_kind, partner_rank, pa, ext, use_op, xact=None, sfx=""):
     """X operand (expression / special / fixed) on `side`, plain dense partner of rank partner_rank on the other"""
-    name, cat, info = xk
+    name, cat, info = xk[:3]
     m, k, n = ext
     rng = g.rng
     if cat == "M":
@@ -245,13 +285,13 @@ def case_x(g, xk, side, partner_kind, partner_rank, pa, ext, use_op, xact=None):
     if side == "L":
         inner = xcols
         ps = g.M(partner_kind, pa, inner, n) if partner_rank == 2 else g.V(partner_kind, pa, inner)
-        return "%s %s | %s" % ("P" if use_op else "Q", xs, ps)
+        return "%s%s %s | %s" % ("P" if use_op else "Q", sfx, xs, ps)
     inner = xrows
     ps = g.M(partner_kind, pa, m, inner) if partner_rank == 2 else g.V(partner_kind, pa, inner)
-    return "%s %s | %s" % ("P" if use_op else "Q", ps, xs)
+    return "%s%s %s | %s" % ("P" if use_op else "Q", sfx, ps, xs)
 
 
-def error_cases(g):
+def error_cases(g, flt=False):
     """empty operands and mismatched inner extents, for every product form and operand family"""
     out = []
     E_M = ["M p r 0 0 :", "M a r 0 0 :", "M p c 0 0 :"]
@@ -269,7 +309,7 @@ def error_cases(g):
                 out.append("P %s | %s" % (g.M(lk, a, 3, 2), e))
                 out.append("Q %s | %s" % (e, g.M(lk, a, 3, 2)))
         out.append("P M p r 0 0 : | M a r 0 0 :")
-        for tag in ("symL", "symU", "b11", "b20", "cb12", "sq", "lo", "upc"):
+        for tag in (("symL", "b20", "cb12", "sq") if flt else ("symL", "symU", "b11", "b20", "cb12", "sq", "lo", "upc")):
             out.append("P %s | %s" % (g.S(tag, False, 3), g.V("v", a, 2)))
             out.append("P %s | %s" % (g.S(tag, False, 3), g.M("cm", a, 2, 3)))
             out.append("Q %s | %s" % (g.V("vstr", a, 2), g.S(tag, False, 3)))
@@ -284,47 +324,67 @@ def error_cases(g):
 
 
 def gen_cases(ctx, pw):
+    """pw = (Packet<double>::size, Packet<float>::size): the padded row length of a row-major parent depends on it"""
     rng = ctx.rng
     quick = ctx.tier == "quick"
-    g = G(rng, pw, 9 if quick else 99)
+    vmax = 9 if quick else 99
+    gd, gf = G(rng, pw[0], vmax), G(rng, pw[1], vmax)
     cases = []
     classes = [0, 1, 2, 3] if quick else [0, 1, 2, 3, 4, 4, 4, 4]
     acts = [(False, False), (False, True), (True, False), (True, True)]
     n = 0
-    # dense x dense: every kind pair in every product form, once per extent class
-    for cls in classes:
-        for form, lks, rks in (("MM", DENSE_M, DENSE_M), ("MV", DENSE_M, DENSE_V), ("VM", DENSE_V, DENSE_M)):
-            for lk in lks:
-                for rk in rks:
-                    combos = [acts[(n + cls) % 4]] if quick else acts
-                    for la, ra in combos:
-                        regen = (lambda ext, form=form, lk=lk, rk=rk, la=la, ra=ra, op=(n % 2 == 0):
-                                 case_dense(g, form, lk, rk, la, ra, ext, op))
-                        cases.append((regen(ext_class(rng, cls)), regen))
-                        n += 1
-    # expression / special / fixed operands on either side, against plain dense partners
-    xs = x_kinds()
-    partners = [("M", k) for k in DENSE_M] + [("V", k) for k in DENSE_V]
-    for cls in classes:
-        for xi, xk in enumerate(xs):
-            if quick:
-                # a rotating subset of 6 partner kinds per (X kind, side), always containing one vector kind
-                base = (xi * 5 + cls * 7)
-                sel = [partners[(base + 4 * j) % len(DENSE_M)] for j in range(4)] + \
-                      [("V", DENSE_V[(xi + cls + j) % len(DENSE_V)]) for j in range(2)]
-            else:
-                sel = partners
-            for side in ("L", "R"):
-                for prank, pk in sel:
-                    for pa in ([rng.random() < 0.5] if quick else [False, True]):
-                        xact = rng.random() < 0.5
-                        regen = (lambda ext, xk=xk, side=side, pk=pk, pr=(2 if prank == "M" else 1), pa=pa, op=(n % 2 == 0), xact=xact:
-                                 case_x(g, xk, side, pk, pr, pa, ext, op, xact))
-                        c = regen(ext_class(rng, cls))
-                        n += 1
-                        if c:
-                            cases.append((c, regen))
-    cases += [(c, None) for c in error_cases(g)]
+    for flt in (False, True):
+        g, sfx, pre = (gf, "f", "float: ") if flt else (gd, "", "")
+        # dense x dense: every kind pair in every product form, once per extent class (float, quick tier: one class per pair, rotating)
+        for ci, cls in enumerate(classes if not flt else (classes if not quick else [None])):
+            for form, lks, rks in (("MM", DENSE_M, DENSE_M), ("MV", DENSE_M, DENSE_V), ("VM", DENSE_V, DENSE_M)):
+                for lk in lks:
+                    for rk in rks:
+                        c_ = classes[n % len(classes)] if cls is None else cls
+                        combos = [acts[(n + c_) % 4] if not flt else acts[(n // 4 + n // 16) % 4]] if quick else \
+                            (acts if not flt else [acts[n % 4], acts[(n + 3) % 4]])
+                        for la, ra in combos:
+                            regen = (lambda ext, g=g, sfx=sfx, form=form, lk=lk, rk=rk, la=la, ra=ra, op=(n % 2 == 0):
+                                     case_dense(g, form, lk, rk, la, ra, ext, op, sfx))
+                            cases.append((regen(ext_class(rng, c_)), regen,
+                                          {"x": lk, "family": pre + "dense x dense " + form, "side": "L", "partner": rk,
+                                           "act": ("a" if la else "p") + ("a" if ra else "p")}))
+                            n += 1
+        # expression / special / fixed operands on either side, against plain dense partners.  Systematic: every X kind (own layout
+        # flags: the 18 matrix / 6 vector layouts under an expression; "", sub, subsub, T, x2, subT and row-/column-major storage of a
+        # special matrix, passive and active; every FixedArray size) meets EVERY partner layout on EACH side once per sweep -- a
+        # quarter of the partner layouts per extent class in the quick tier, all of them per class in the thorough tier (float: in
+        # every second class) -- and the activity pattern (X active?, partner active?) rotates through all four combinations
+        xs = x_kinds(flt)
+        for ci, cls in enumerate(classes):
+            if flt and not quick and ci % 2 == 1:
+                continue
+            for xi, xk in enumerate(xs):
+                for si, side in enumerate(("L", "R")):
+                    rot = xi * 7 + si * 11
+                    Mr = [DENSE_M[(rot + j) % len(DENSE_M)] for j in range(len(DENSE_M))]
+                    Vr = [DENSE_V[(rot + j) % len(DENSE_V)] for j in range(len(DENSE_V))]
+                    if quick:
+                        q = ci % 4
+                        sel = [("M", k) for k in Mr[[0, 5, 10, 14][q]:[5, 10, 14, 18][q]]] + [("V", k) for k in Vr[[0, 1, 2, 4][q]:[1, 2, 4, 6][q]]]
+                    else:
+                        sel = [("M", k) for k in Mr] + [("V", k) for k in Vr]
+                    for pi, (prank, pk) in enumerate(sel):
+                        for rep_ in ((0,) if quick or flt else (0, 1)):
+                            combo = acts[(xi + si + ci + pi + 2 * rep_) % 4]
+                            xact, pa = combo
+                            if xk[1] == "S":
+                                pa = acts[(xi + si + ci + pi) % 4][1] if quick or flt else bool(rep_)
+                                xact = xk[2][2]
+                            regen = (lambda ext, g=g, sfx=sfx, xk=xk, side=side, pk=pk, pr=(2 if prank == "M" else 1), pa=pa, op=(n % 2 == 0), xact=xact:
+                                     case_x(g, xk, side, pk, pr, pa, ext, op, xact, sfx))
+                            c = regen(ext_class(rng, cls))
+                            n += 1
+                            if c:
+                                cases.append((c, regen, {"x": ("f:" if flt else "") + xk[0], "family": xk[3], "side": side, "partner": pk,
+                                                         "act": ("a" if xact else "p") + ("a" if pa else "p")}))
+    cases += [(c, None) for c in error_cases(gd)]
+    cases += [(c.replace("P ", "Pf ", 1).replace("Q ", "Qf ", 1), None) for c in error_cases(gf, flt=True)]
     return cases
 
 
@@ -362,14 +422,35 @@ def parse_line(line):
     m = RES_RE.match(parts[3])
     if not m:
         return None
-    out["res"] = {"rank": int(m.group(1)), "d": [int(x) for x in m.group(2).split(",")], "v": ints(m.group(4))}
+    out["res"] = {"rank": int(m.group(1)), "d": [int(x) for x in m.group(2).split(",")], "o": [int(x) for x in m.group(3).split(",")],
+                  "v": ints(m.group(4))}
     out["J"] = []
-    if len(parts) > 4 and parts[4].startswith("J"):
-        for t in parts[4].split()[1:]:
-            mm = re.match(r"^(\d+),(\d+):L\[([^\]]*)\]R\[([^\]]*)\]$", t)
-            if not mm:
-                return None
-            out["J"].append((int(mm.group(1)), int(mm.group(2)), ints(mm.group(3)), ints(mm.group(4))))
+    out["tape"] = None
+    for sec in parts[4:]:
+        if sec.startswith("tape"):
+            out["tape"] = []
+            for t in sec.split()[1:]:
+                if t == "GAPS":
+                    out["tape"].append(("GAPS", []))
+                    continue
+                if ":" not in t:
+                    return None
+                lhs, rhs = t.split(":", 1)
+                ops = []
+                for o in (rhs.split(",") if rhs else []):
+                    if "*" not in o:
+                        return None
+                    m_, g_ = o.split("*", 1)
+                    ops.append((m_, g_))
+                out["tape"].append((lhs, ops))
+        elif sec.startswith("J"):
+            for t in sec.split()[1:]:
+                mm = re.match(r"^(\d+),(\d+):L\[([^\]]*)\]R\[([^\]]*)\]$", t)
+                if not mm:
+                    return None
+                out["J"].append((int(mm.group(1)), int(mm.group(2)), ints(mm.group(3)), ints(mm.group(4))))
+        else:
+            return None
     return out
 
 
@@ -383,7 +464,7 @@ def spec_info(case):
         head, vals = ws[:col], [int(x) for x in ws[col + 1:]]
         fam = head[0]
         act = head[1] == "a"
-        x2 = head[-1] == "x2"
+        x2 = head[-1] in ("x2", "xs")
         tag = head[2] if fam == "S" else None
         res.append({"fam": fam, "act": act, "x2": x2, "tag": tag, "vals": vals, "transposed": "T" in head})
     return res
@@ -432,7 +513,10 @@ def oracle(case, line):
     if expect is not None:
         return ("missing-exception", "no exception, expected %s" % expect)
     # no read outside the operands, no rejected BLAS argument
+    want_prefix = "s" if case.split()[0] in ("Pf", "Qf") else "d"
     for c in p["calls"]:
+        if c[0] != want_prefix:
+            return ("routine-type", "BLAS routine %s called for %s operands" % (c.split("[")[0], "float" if want_prefix == "s" else "double"))
         if ";x=0;" not in c:
             return ("xerbla", "BLAS rejected an argument: %s" % c)
         if not c.endswith(";in=ok]"):
@@ -474,6 +558,73 @@ def oracle(case, line):
                     return ("jacobian", "d result[%d,%d] / d right cells = %s, derivative of the defining sum = %s" % (i, j, JR, exp))
             elif JR:
                 return ("jacobian", "Jacobian w.r.t. a passive right operand")
+        # the recorded statements themselves: a tangent-linear sweep over the dumped tape must leave, in the gradient index of
+        # EVERY result element, the differential of its defining sum in terms of the operands' storage cells
+        if p["tape"] is None:
+            return ("tape", "an operand is active but no tape section was produced")
+        t = tape_oracle(p, L, R, sl, sr, LV, LC, RV, RC, lr, lc, rc, want_rank)
+        if t is not None:
+            return t
+    return None
+
+
+def tape_oracle(p, L, R, sl, sr, LV, LC, RV, RC, lr, lc, rc, want_rank):
+    """independent of the model: forward sweep over the implementation's statements (symbolic gradient indices as printed)"""
+    vals = {}
+    assigned = {}
+
+    def val(g):
+        if g in vals:
+            return vals[g]
+        if g[0] in "LR" and g[1] == "+":
+            return {g: 1}
+        return None
+    for n, (lhs, ops) in enumerate(p["tape"]):
+        if lhs == "GAPS":
+            return ("tape", "the gradient allocator had gaps when the product started (harness assumption broken)")
+        acc = {}
+        for m_, g_ in ops:
+            try:
+                mult = int(m_)
+            except ValueError:
+                return ("tape", "statement %d (%s) has the non-integer multiplier %s" % (n, lhs, m_))
+            v = val(g_)
+            if v is None:
+                return ("tape", "statement %d (%s) reads the gradient index %s that is neither an operand cell nor assigned before" % (n, lhs, g_))
+            for k_, c_ in v.items():
+                acc[k_] = acc.get(k_, 0) + mult * c_
+        if not (lhs[0] in "CT" and lhs[1] == "+"):
+            return ("tape", "statement %d assigns the gradient index %s (not a temporary or result index)" % (n, lhs))
+        vals[lhs] = acc
+        assigned[lhs] = assigned.get(lhs, 0) + 1
+    scl, scr = (2 if sl["x2"] else 1), (2 if sr["x2"] else 1)
+    o = p["res"]["o"]
+    nres = 0
+    for i in range(lr):
+        for j in range(rc):
+            cell = (i * o[0] + j * o[1]) if want_rank == 2 else ((i if L["rank"] == 2 else j) * o[0])
+            g = "C+%d" % cell
+            nres += 1
+            if assigned.get(g, 0) != 1:
+                return ("tape", "result element [%d,%d] (gradient index %s) is the left-hand side of %d statements, expected 1" % (i, j, g, assigned.get(g, 0)))
+            exp = {}
+            if L["a"]:
+                for k in range(lc):
+                    if LC[i][k] >= 0:
+                        key = "L+%d" % LC[i][k]
+                        exp[key] = exp.get(key, 0) + scl * RV[k][j]
+            if R["a"]:
+                for k in range(lc):
+                    if RC[k][j] >= 0:
+                        key = "R+%d" % RC[k][j]
+                        exp[key] = exp.get(key, 0) + scr * LV[i][k]
+            got = {k_: c_ for k_, c_ in vals[g].items() if c_ != 0}
+            exp = {k_: c_ for k_, c_ in exp.items() if c_ != 0}
+            if got != exp:
+                return ("tape", "the statements recorded for result[%d,%d] denote the differential %s, the differential of the defining sum is %s"
+                        % (i, j, dict(sorted(got.items())), dict(sorted(exp.items()))))
+    if sum(v for g, v in assigned.items() if g.startswith("C+")) != nres:
+        return ("tape", "statements assign result gradient indices that are not result elements")
     return None
 
 
@@ -501,7 +652,7 @@ def run_impl_all(exe, pw, cases, max_crashes=25):
     crashes = []
     pos = 0
     while pos < len(cases):
-        text = "cfg %d\n" % pw + "\n".join(cases[pos:]) + "\n"
+        text = cfg_line(pw) + "\n".join(cases[pos:]) + "\n"
         lines, rc, err = vcheck.run_impl(exe, [], text)
         got = lines[1:] if lines else []
         if len(got) >= len(cases) - pos and rc != 0:
@@ -520,8 +671,13 @@ def run_impl_all(exe, pw, cases, max_crashes=25):
     return out, crashes
 
 
+def cfg_line(pw):
+    """pw = (Packet<double>::size, Packet<float>::size)"""
+    return "cfg %d %d\n" % tuple(pw)
+
+
 def run_model_all(pw, cases):
-    return vcheck.run_model("matmul", "cfg %d\n" % pw + "\n".join(cases) + "\n")[1:]
+    return vcheck.run_model("matmul", cfg_line(pw) + "\n".join(cases) + "\n")[1:]
 
 
 def classify_case(case):
@@ -534,7 +690,7 @@ def classify_case(case):
             ops = ["T" if o == "T" else o.split(":")[0] + ("-" if o.count(":") == 3 and o.split(":")[3].startswith("-") else "") for o in h[(5 if h[0] == "M" else 3):]]
             return h[0] + (h[2] if h[0] == "M" else "") + "".join(ops)
         return "".join(h[:1] + h[2:3] + [o.split(":")[0] for o in h[4:]]) if h[0] == "S" else h[0]
-    return k(w[1:bar]) + "*" + k(w[bar + 1:])
+    return ("f:" if w[0] in ("Pf", "Qf") else "") + k(w[1:bar]) + "*" + k(w[bar + 1:])
 
 
 def simplify_values(c):
@@ -575,18 +731,22 @@ def run(ctx, replay):
     thms = [NS + t for t in vcheck.prop_theorems("AdeptProofs/Props/C15.lean", "C15_")]
     fails = vcheck.lean_gate(ctx, ["AdeptProofs.Props.C15", "AdeptProofs.Refute.Matmul"], thms, required=[NS + r for r in REQUIRED])
     exe = build()
-    lines, rc, err = vcheck.run_impl(exe, [], "cfg 0\n")
-    pw = int(lines[0].split()[1]) if lines and lines[0].startswith("cfg ") else 0
-    if pw <= 0:
-        raise vbuild.BuildError("matmul driver does not answer the cfg query: rc=%s %s" % (rc, err[-800:]))
+    def packet_widths(e):
+        lines, rc, err = vcheck.run_impl(e, [], "cfg 0 0\n")
+        w = lines[0].split() if lines and lines[0].startswith("cfg ") else []
+        if len(w) < 3 or int(w[1]) <= 0 or int(w[2]) <= 0:
+            raise vbuild.BuildError("matmul driver does not answer the cfg query: rc=%s %s" % (rc, err[-800:]))
+        return (int(w[1]), int(w[2]))
+    pw = packet_widths(exe)
     builds = [("sse2-default", exe, pw)]
     if ctx.tier == "thorough" and "avx" in cpu_flags():
         e2 = build(extra=["-mavx"])
-        l2 = vcheck.run_impl(e2, [], "cfg 0\n")[0]
-        builds.append(("avx", e2, int(l2[0].split()[1])))
+        builds.append(("avx", e2, packet_widths(e2)))
     ctx.pending = []
-    ctx.notes["packet_widths"] = {b[0]: b[2] for b in builds}
-    stats = {"routines": {}, "exceptions": {}, "refused": 0, "copies": 0, "active_cases": 0, "kind_pairs": set(), "crashes": 0}
+    ctx.notes["packet_widths"] = {b[0]: {"double": b[2][0], "float": b[2][1]} for b in builds}
+    stats = {"routines": {}, "exceptions": {}, "refused": 0, "copies": 0, "active_cases": 0, "kind_pairs": set(), "crashes": 0,
+             "dist": {}, "per_kind": {}, "tape_cases": 0, "tape_statements": 0, "tape_operations": 0,
+             "tape_cases_with_conversion_or_copy": 0}
     if replay:
         r = json.load(open(replay))
         cases = [r["case"]]
@@ -602,14 +762,19 @@ def run(ctx, replay):
         judge(ctx, e, label, w, cases, stats)
     if ctx.tier == "thorough":
         second_opinion(ctx, builds[0][2], stats)
-    ctx.cov["rule"] = ("one case = one product A**B or matmul(A,B) with integer cell values (padding cells included): dense operand kinds %s x vector "
-                       "kinds %s in the forms matrix*matrix, matrix*vector, vector*matrix (every kind pair once per extent class; "
-                       "quick: classes all-ones / one extent 1 / {2,3} / {3,5,8}, activity pattern rotating; thorough: + random triples "
-                       "from {1,2,3,5,8}, all four activity patterns, values up to 99, AVX build if available); expression operands "
-                       "2.0*A, FixedArray matrices %s and vectors %s, and the special matrices %s (passive; T / x2 / submatrix_on_diagonal "
-                       "variants; active where instantiated) on either side against plain dense partners; empty and mismatched operands "
-                       "for every family.  non-trivial: a product that reaches BLAS or raises the expected exception; distinct: "
-                       "different case text" % (DENSE_M, DENSE_V, FIXED_M, FIXED_V, [s[0] for s in SPECIALS]))
+    ctx.cov["rule"] = ("one case = one product A**B or matmul(A,B) with integer cell values (padding cells included), element type double "
+                       "(P/Q) or float (Pf/Qf, s-prefix BLAS): dense operand kinds %s x vector kinds %s in the forms matrix*matrix, "
+                       "matrix*vector, vector*matrix (every kind pair once per extent class; quick: classes all-ones / one extent 1 / {2,3} "
+                       "/ {3,5,8}, activity pattern rotating, float: one class per pair; thorough: + random triples from {1,2,3,5,8}, all "
+                       "four activity patterns, values up to 99, AVX build if available); operands converted by promote_array before "
+                       "matmul_ is entered -- expressions 2.0*A and A+A over EVERY dense matrix / vector layout, FixedArray matrices %s and "
+                       "vectors %s, the special matrices %s (variants '', submatrix_on_diagonal once or twice, .T(), 2.0*S; passive and, "
+                       "where instantiated, active; float: %s) -- on either side against plain dense partners, each (kind, side) meeting "
+                       "every partner layout with rotating activity patterns (distribution: operand_kind_distribution / "
+                       "operand_kind_sweep); empty and mismatched operands for every family.  Every active product: the full tape "
+                       "(conversion, copy and result statements; lhs index, every operand index, every multiplier) is compared exactly "
+                       "with the model's.  non-trivial: a product that reaches BLAS or raises the expected exception; distinct: "
+                       "different case text" % (DENSE_M, DENSE_V, FIXED_M, FIXED_V, [s_[0] for s_ in SPECIALS], [s_[0] for s_ in SPECIALS_F]))
     finish(ctx, fails, stats)
 
 
@@ -625,6 +790,7 @@ def cpu_flags():
 
 def judge(ctx, exe, label, pw, cases, stats, tag="gen", verbose=False):
     regens = [c[1] if isinstance(c, tuple) else None for c in cases]
+    metas = [c[2] if isinstance(c, tuple) and len(c) > 2 else None for c in cases]
     cases = [c[0] if isinstance(c, tuple) else c for c in cases]
     impl, crashes = run_impl_all(exe, pw, cases)
     model = run_model_all(pw, cases)
@@ -659,6 +825,11 @@ def judge(ctx, exe, label, pw, cases, stats, tag="gen", verbose=False):
         if il == "bad-op" or il.startswith("EXC-build"):
             ctx.pending.append({"kind": "harness", "correspondence": "case not accepted by the harness", "case": case, "impl": il, "model": ml, "build": label})
             continue
+        if " ; tape GAPS" in il:
+            # the symbolic T+k indices assume consecutive allocation: not a statement about the library
+            ctx.pending.append({"kind": "harness", "correspondence": "gradient allocator had gaps when the product started", "case": case,
+                                "impl": il, "model": ml, "build": label})
+            continue
         verdict = oracle(case, il)
         p = parse_line(il)
         key = classify_case(case)
@@ -673,6 +844,13 @@ def judge(ctx, exe, label, pw, cases, stats, tag="gen", verbose=False):
                 stats["active_cases"] += 1
         if p and "exc" in p:
             stats["exceptions"][p["exc"]] = stats["exceptions"].get(p["exc"], 0) + 1
+        account(stats, metas[i], p, verdict)
+        if p and p.get("tape") is not None:
+            stats["tape_cases"] += 1
+            stats["tape_statements"] += len(p["tape"])
+            stats["tape_operations"] += sum(len(o) for _, o in p["tape"])
+            if any(l.startswith("T+") for l, _ in p["tape"]):
+                stats["tape_cases_with_conversion_or_copy"] += 1
         ctx.count_case((label, case), nontrivial=True,
                        sample={"build": label, "case": case[:300], "impl": il[:400]})
         if verdict == "refused":
@@ -691,9 +869,14 @@ def judge(ctx, exe, label, pw, cases, stats, tag="gen", verbose=False):
                 small = shrink(case, regen, still)
                 o2 = run_impl_all(exe, pw, [small])[0][0]
                 v2 = oracle(small, o2)
-                ctx.violation("%s [%s build]: %s" % (v2[1] if v2 and v2 != "refused" else msg, label, small[:240]),
+                m2 = run_model_all(pw, [small])[0]
+                d2 = vcheck.first_diff(strip_j(o2 or "").split(" ; "), (m2 or "").split(" ; "))
+                sect = None if d2 is None else (["left operand", "right operand", "BLAS calls / exception", "result", "tape"] + ["?"] * 9)[d2]
+                ctx.violation("%s [%s build%s]: %s" % (v2[1] if v2 and v2 != "refused" else msg, label,
+                                                      "" if sect is None else "; the model's output differs too, first in: " + sect, small[:240]),
                               {"kind": "oracle", "case": small, "original_case": case, "build": label, "pw": pw,
-                               "signature": sig + ":" + key, "impl": o2, "model": run_model_all(pw, [small])[0], "message": msg})
+                               "signature": sig + ":" + key, "impl": o2, "model": m2, "message": msg,
+                               "model_first_difference": sect})
         elif ml is None or strip_j(il) != ml:
             ctx.cov["disagreements_checked"] += 1
             if len(ctx.pending) < 3:
@@ -705,6 +888,32 @@ def judge(ctx, exe, label, pw, cases, stats, tag="gen", verbose=False):
                                                          "model": b[d] if d is not None and d < len(b) else None}})
     ctx.cov["traces_validated_against_impl"] += len(cases)
     return nbad
+
+
+def account(stats, meta, p, verdict):
+    """input distribution per operand kind (evidence): family -> counters; fine-grained kind -> partner layouts seen"""
+    if meta is None:
+        return
+    d = stats["dist"].setdefault(meta["family"], {"cases": 0, "X on the left": 0, "X on the right": 0, "activity (X,partner)": {},
+                                                  "reached BLAS": 0, "exception": 0, "refused by design": 0, "with recorded statements": 0,
+                                                  "_own": set(), "_partner": set()})
+    d["cases"] += 1
+    d["X on the left" if meta["side"] == "L" else "X on the right"] += 1
+    d["activity (X,partner)"][meta["act"]] = d["activity (X,partner)"].get(meta["act"], 0) + 1
+    d["_own"].add(meta["x"])
+    d["_partner"].add(meta["partner"])
+    if verdict == "refused":
+        d["refused by design"] += 1
+    elif p and "exc" in p:
+        d["exception"] += 1
+    elif p and "calls" in p:
+        d["reached BLAS"] += 1
+        if p.get("tape"):
+            d["with recorded statements"] += 1
+    if "dense x dense" not in meta["family"]:
+        k = stats["per_kind"].setdefault((meta["x"], meta["side"]), {"partners": set(), "acts": set()})
+        k["partners"].add(meta["partner"])
+        k["acts"].add(meta["act"])
 
 
 def second_opinion(ctx, pw, stats):
@@ -739,6 +948,28 @@ def finish(ctx, fails, stats):
     ctx.notes["cases_with_active_operand"] = stats["active_cases"]
     ctx.notes["operand_kind_pairs"] = len(stats["kind_pairs"])
     ctx.notes["sanitizer_aborts"] = stats["crashes"]
+    ctx.notes["tape_compared_exactly"] = {"active products with a tape section": stats["tape_cases"], "statements": stats["tape_statements"],
+                                          "operations": stats["tape_operations"],
+                                          "products whose tape contains conversion / copy statements": stats["tape_cases_with_conversion_or_copy"]}
+    dist = {}
+    for fam, d in sorted(stats["dist"].items()):
+        e = {k: v for k, v in d.items() if not k.startswith("_")}
+        e["distinct own kinds / layouts"] = len(d["_own"])
+        e["distinct partner layouts"] = len(d["_partner"])
+        dist[fam] = e
+    ctx.notes["operand_kind_distribution"] = dist
+    if stats["per_kind"]:
+        need_m, need_v = len(DENSE_M) + len(DENSE_V), len(DENSE_M)
+        vec_kinds = {n for n, c, _, _ in x_kinds() if c in ("V", "FV")} | {"f:" + n for n, c, _, _ in x_kinds(True) if c in ("V", "FV")}
+        short = sorted("%s/%s" % k for k, v in stats["per_kind"].items() if len(v["partners"]) < (need_v if k[0] in vec_kinds else need_m))
+        ctx.notes["operand_kind_sweep"] = {
+            "kinds x sides": len(stats["per_kind"]),
+            "min distinct partner layouts per (kind, side)": min(len(v["partners"]) for v in stats["per_kind"].values()),
+            "(kind, side) that did not meet every partner layout": short[:20],
+            "min distinct activity patterns (X, partner) per (kind, side), expressions and fixed arrays (4 possible)":
+                min(len(v["acts"]) for k, v in stats["per_kind"].items() if ":S:" not in ":" + k[0]),
+            "min distinct activity patterns per (kind, side), special matrices (activity of X is part of the kind: 2 possible)":
+                min(len(v["acts"]) for k, v in stats["per_kind"].items() if ":S:" in ":" + k[0])}
     ctx.assumptions += ["exact regime: integer-valued doubles, |value| <= 99, extents <= 8: every product and sum is exact",
                         "the BLAS contract (Lean spec AdeptModel/Blas.lean and harness/spy_blas.cpp are both transcribed from the Netlib reference); "
                         "alpha = 1, beta = 0 only (the only values matmul.h passes)",
